@@ -57,7 +57,8 @@ pub fn io_kind(k: std::io::ErrorKind) -> String {
     match k {
         std::io::ErrorKind::UnexpectedEof => "io.eof".to_string(),
         std::io::ErrorKind::ConnectionReset => "io.reset".to_string(),
-        std::io::ErrorKind::BrokenPipe => "io.pipe".to_string(),
+        // the scripted transport injects these two kinds as WRITE errors only: one class
+        std::io::ErrorKind::BrokenPipe | std::io::ErrorKind::Interrupted => "io.pipe".to_string(),
         _ => "io.other".to_string(),
     }
 }
